@@ -759,6 +759,8 @@ def check_user(case):
     mal = list(sm.get_mprob_alphabet())
     if len(mal) > 5 and min(pi4) < 2e-3:
         pi4 = PI4["y"]        # word probabilities must stay inside the (1e-6, 1) bound of motif probabilities
+    if len(mal) > 20 and min(pi4) < 2e-2:
+        pi4 = PI4["g"]        # three-letter words: the cube of the smallest monomer probability must stay above 1e-6
     mono = dict(zip("TCAG", pi4))
     if len(mal) == 4:
         pi = mono
